@@ -25,6 +25,7 @@ import (
 	"encoding/json"
 	"fmt"
 	"hash/fnv"
+	"io"
 	"os"
 	"reflect"
 	"runtime"
@@ -785,6 +786,12 @@ func main() {
 		}
 	}
 
+	// histories: parsing again after the parsed types were used. Types are
+	// registered into a shared TypeSet by the generators (RegisterTo renames
+	// colliding structs in place), so a second Parse of the same string must
+	// not see anything of the first.
+	histEvals, histDistinct := reparseAfterRegister(chk)
+
 	// confirm every witness 5 times, then report
 	fps := make([]string, 0, len(total.wit))
 	for fp := range total.wit {
@@ -839,10 +846,12 @@ func main() {
 		"samples":                         sampleList,
 		"exhaustive":                      exhaustive,
 		"families":                        famCov,
-		"per_family_evaluations":          total.perFamily,
-		"skipped_slow":                    total.slow,
-		"workers":                         workers,
-		"observation_raw_atom_r":          "Parse(\"r\") is " + rawObs + " ('r' raw data is in the documented grammar but not in the property's list; not judged)",
+		"histories_reparse_after_register": map[string]interface{}{"evaluations": histEvals, "distinct_pairs": histDistinct,
+			"universe": "all ordered pairs of one-member structs over the struct-name pool x {i,s} member types (same name with different members included), alone and inside a tuple: Parse both, RegisterTo one TypeSet and GenerateType, then Parse both again"},
+		"per_family_evaluations": total.perFamily,
+		"skipped_slow":           total.slow,
+		"workers":                workers,
+		"observation_raw_atom_r": "Parse(\"r\") is " + rawObs + " ('r' raw data is in the documented grammar but not in the property's list; not judged)",
 		"observation_accepted_outside_reference_grammar":    total.outside,
 		"observation_accepted_not_equal_to_print_mod_blank": total.stripDiff,
 		"explanation": "observation_* are counted, not judged: the property only demands a fixed point for whatever the parser accepts. " +
@@ -920,4 +929,56 @@ func replay(path string) int {
 		}
 	}
 	return code
+}
+
+// reparseAfterRegister enumerates short histories Parse, Parse, RegisterTo /
+// GenerateType, Parse, Parse and checks that the second parse still prints
+// the input.
+func reparseAfterRegister(chk *report.Checker) (int, int) {
+	evals, distinct := 0, 0
+	var sigs []string
+	for _, n := range hygieneStructNames {
+		for _, m := range []string{"i", "s"} {
+			sigs = append(sigs, "("+m+")<"+n+",a>")
+		}
+	}
+	check := func(in string, phase string) {
+		evals++
+		var got string
+		o := runner.Guard(func() {
+			t, err := signature.Parse(in)
+			if err != nil {
+				got = "error: " + err.Error()
+				return
+			}
+			got = t.Signature()
+		})
+		if o.Panic != "" {
+			got = "panic: " + o.Panic
+		}
+		if got != in {
+			chk.Report("Parse/after-RegisterTo/printed-signature-differs",
+				fmt.Sprintf("after other parsed types were registered into a TypeSet, Parse(%q).Signature() = %q", in, got),
+				map[string]interface{}{"input": in, "printed": got, "phase": phase})
+		}
+	}
+	for _, a := range sigs {
+		for _, b := range sigs {
+			distinct++
+			both := "(" + a + b + ")"
+			runner.Guard(func() {
+				set := signature.NewTypeSet()
+				for _, x := range []string{a, b, both} {
+					if t, err := signature.Parse(x); err == nil {
+						t.RegisterTo(set)
+						signature.GenerateType(t, "p", io.Discard)
+					}
+				}
+			})
+			check(a, "first")
+			check(b, "second")
+			check(both, "tuple")
+		}
+	}
+	return evals, distinct
 }
